@@ -41,9 +41,12 @@ pub enum AttrStyle {
     /// append_namespace(&CreateNamespace), every other prefix declared first with a provisional URI and then again with
     /// the final one (an update in place); attributes as nodes, every other one first with a provisional value
     Redeclare,
+    /// map-style in two passes: every entry is inserted once (every other one with a provisional value), then the
+    /// provisional ones are inserted again with their final value - an update of a key that is not the last one
+    Reinsert,
 }
 
-pub const STYLES: [AttrStyle; 5] = [AttrStyle::Map, AttrStyle::Node, AttrStyle::Any, AttrStyle::Set, AttrStyle::Redeclare];
+pub const STYLES: [AttrStyle; 6] = [AttrStyle::Map, AttrStyle::Node, AttrStyle::Any, AttrStyle::Set, AttrStyle::Redeclare, AttrStyle::Reinsert];
 
 pub fn new_leaf(xot: &mut Xot, a: &ANode) -> Node {
     match a.kind {
@@ -70,6 +73,8 @@ fn add_abnormal(xot: &mut Xot, e: Node, a: &ANode, style: AttrStyle, h: &mut HTr
 fn add_abnormal_part(xot: &mut Xot, e: Node, a: &ANode, style: AttrStyle, h: &mut HTree, decls: bool, attrs: bool) -> Result<(), String> {
     let no_decls: Vec<(String, String)> = Vec::new();
     let no_attrs: Vec<(crate::adoc::QName, String)> = Vec::new();
+    let mut redo_ns: Vec<(xot::PrefixId, xot::NamespaceId)> = Vec::new();
+    let mut redo_attrs: Vec<(xot::NameId, String)> = Vec::new();
     for (p, u) in if decls { &a.decls } else { &no_decls } {
         let pid = xot.add_prefix(p);
         let nid = xot.add_namespace(u);
@@ -79,6 +84,15 @@ fn add_abnormal_part(xot: &mut Xot, e: Node, a: &ANode, style: AttrStyle, h: &mu
             }
             AttrStyle::Set => {
                 xot.set_namespace(e, pid, nid);
+            }
+            AttrStyle::Reinsert => {
+                if (p.len() + u.len()) % 2 == 0 {
+                    let draft = xot.add_namespace("urn:zz:provisional");
+                    xot.namespaces_mut(e).insert(pid, draft);
+                    redo_ns.push((pid, nid));
+                } else {
+                    xot.namespaces_mut(e).insert(pid, nid);
+                }
             }
             AttrStyle::Redeclare => {
                 if (p.len() + u.len()) % 2 == 0 {
@@ -112,6 +126,14 @@ fn add_abnormal_part(xot: &mut Xot, e: Node, a: &ANode, style: AttrStyle, h: &mu
             AttrStyle::Set => {
                 xot.set_attribute(e, name, v.clone());
             }
+            AttrStyle::Reinsert => {
+                if (q.local.len() + v.len()) % 2 == 0 {
+                    xot.set_attribute(e, name, "provisional");
+                    redo_attrs.push((name, v.clone()));
+                } else {
+                    xot.attributes_mut(e).insert(name, v.clone());
+                }
+            }
             AttrStyle::Redeclare => {
                 if (q.local.len() + v.len()) % 2 == 0 {
                     let n0 = xot.new_attribute_node(name, "provisional".to_string());
@@ -133,6 +155,13 @@ fn add_abnormal_part(xot: &mut Xot, e: Node, a: &ANode, style: AttrStyle, h: &mu
                     .map_err(|er| format!("any_append(attribute) failed: {:?}", er))?;
             }
         }
+    }
+    // second pass of the Reinsert style
+    for (pid, nid) in redo_ns {
+        xot.namespaces_mut(e).insert(pid, nid);
+    }
+    for (name, v) in redo_attrs {
+        xot.attributes_mut(e).insert(name, v);
     }
     h.nss = xot.namespaces(e).nodes().collect();
     h.attrs = xot.attributes(e).nodes().collect();
@@ -318,6 +347,37 @@ fn build_rec(xot: &mut Xot, a: &ANode, route: Route, style: AttrStyle) -> Result
                     }
                     let t1 = xot.new_text(&first);
                     xot.insert_after(prev, t1).map_err(|e| format!("insert_after failed: {:?}", e))?;
+                    continue;
+                }
+                if merge && c.kind == AKind::Text && chars.len() >= 2 && pending_before.is_none() && i % 2 == 0 {
+                    // two pieces around a temporary element, which then leaves (promoted to its own document, detached,
+                    // removed, or moved to another parent): the seam it leaves has to close
+                    let k = chars.len() / 2;
+                    let first: String = chars[..k].iter().collect();
+                    let second: String = chars[k..].iter().collect();
+                    let t1 = xot.new_text(&first);
+                    xot.append(node, t1).map_err(|e| format!("append failed: {:?}", e))?;
+                    let tmp_name = xot.add_name("zz-temporary");
+                    let tmp = xot.new_element(tmp_name);
+                    xot.append(node, tmp).map_err(|e| format!("append failed: {:?}", e))?;
+                    let t2 = xot.new_text(&second);
+                    xot.append(node, t2).map_err(|e| format!("append failed: {:?}", e))?;
+                    match (chars.len() + i) % 4 {
+                        0 => {
+                            let d = xot.new_document_with_element(tmp).map_err(|e| format!("new_document_with_element failed: {:?}", e))?;
+                            xot.remove(d).map_err(|e| format!("remove failed: {:?}", e))?;
+                        }
+                        1 => {
+                            xot.detach(tmp).map_err(|e| format!("detach failed: {:?}", e))?;
+                            xot.remove(tmp).map_err(|e| format!("remove failed: {:?}", e))?;
+                        }
+                        2 => xot.remove(tmp).map_err(|e| format!("remove failed: {:?}", e))?,
+                        _ => {
+                            let other = xot.new_element(tmp_name);
+                            xot.append(other, tmp).map_err(|e| format!("append failed: {:?}", e))?;
+                            xot.remove(other).map_err(|e| format!("remove failed: {:?}", e))?;
+                        }
+                    }
                     continue;
                 }
                 let hc = build_rec(xot, c, route, style)?;
